@@ -17,6 +17,7 @@ import AbraModel.Drv.PatMatrix
 import AbraModel.Drv.Sem
 import AbraModel.Drv.Compile
 import AbraModel.Drv.TryLower
+import AbraModel.Drv.Analysis
 import AbraModel.Drv.Arr
 import AbraModel.Drv.F64
 import AbraModel.Drv.Opt
@@ -60,6 +61,7 @@ def dispatch (line : String) : String :=
   | "cgen" :: rest => handleCgen rest
   | "prelude" :: rest => handlePrelude rest
   | "trylower" :: rest => handleTryLower rest
+  | "analysis" :: rest => handleAnalysis rest
   | "arr" :: rest => handleArr rest
   | "f64" :: rest => handleF64 rest
   | "opt" :: rest => handleOpt rest
